@@ -11,6 +11,9 @@ import Rare.Proofs.C06Gzip
 import Rare.Proofs.C06Pipe
 import Rare.Proofs.C06ErrTrace
 import Rare.Proofs.C06Read
+import Rare.Proofs.C06Inflate
+import Rare.Model.C06File
+import Rare.Model.C06Dispatch
 /-!
 # C06 — named inputs are each read once, decoded faithfully, and failures are reported
 
@@ -24,6 +27,10 @@ functions mirroring go1.23 / rare, and `match_eq_spec`, `match_sound`, `match_ba
 `walk_each_regular_file_once`, `plan_mentions` say what they compute.
 
 * `plan_once_per_mention`, `plan_stdin` – what is opened, and how often.
+* Part 3 (end of the file): `gzip_decoded_faithfully`, `gzip_truncated_counted`, `gzip_trailing_garbage_counted`,
+  `gzip_cut_in_header_is_plain` – the gzip reader (header, DEFLATE, trailer, member loop) is a Lean function of the
+  file's bytes; `dispatch_matches_source`, `dispatch_usage_iff`, `dispatch_reader`, `dispatch_plain` – the flag
+  plumbing of `BuildBatcherFromArguments`.
 * `errors_counted`, `failed_input_exit_2` – read errors = number of failed inputs; any failure ⇒ exit 2.
 * `others_unaffected` – whatever the other inputs do (open error, failure after any number of bytes),
   in every terminal state of the goroutine/channel protocol every healthy input's matching lines have
@@ -1006,5 +1013,203 @@ example : (⟨0x0e, [0, 0, 0, 0, 0, 3], [1, 2], [97], []⟩ : Gz.Hdr).WF ∧
       = [0x1f, 0x8b, 8, 0x0e, 0, 0, 0, 0, 0, 3, 2, 0, 1, 2, 97, 0, 73, 4] ∧
     Gz.readHeader ([0x1f, 0x8b, 8, 0x0e, 0, 0, 0, 0, 0, 3, 2, 0, 1, 2, 97, 0, 73, 4] ++ [3, 0]) = .ok 18 := by
   refine ⟨⟨rfl, by decide, ⟨by decide, by decide⟩, ⟨by decide, by decide⟩⟩, by decide +kernel, by decide +kernel⟩
+
+/-! # gzip: what a gzip file DELIVERS is decided by the model of the decoder -/
+
+theorem ofBytes_headerOk (h : Gz.Hdr) (hw : h.WF) (rest : Bytes) :
+    (FileOracle.ofBytes (h.encode ++ rest)).gzHeaderOk = true := by
+  unfold FileOracle.gzHeaderOk Gz.headerOk Gz.readHeader
+  have e : (FileOracle.ofBytes (h.encode ++ rest)).content = h.encode ++ rest := rfl
+  rw [e, Gz.readHeaderRest_encode h hw rest]
+
+/-- **A gzip file is delivered decompressed, completely and without a read error** – for every file that consists of
+    gzip members (any header `gzip.NewReader` accepts: extra field, name, comment, header CRC) whose DEFLATE streams are
+    sequences of stored blocks: `rare -z` hands on exactly the lines of the concatenated member contents.  Several
+    members (`cat a.gz b.gz`) are one input.  (The decoder model also covers fixed and dynamic Huffman blocks; for those
+    the model is compared with `compress/gzip` on generated files, op `gunzip`.) -/
+theorem gzip_decoded_faithfully (name : Path) (m : Gz.Hdr × List Bytes) (ms : List (Gz.Hdr × List Bytes))
+    (hms : Gz.MembersOk (m :: ms)) :
+    Gz.gunzip (Gz.fileStored (m :: ms)) = some (Gz.fileData (m :: ms), false) ∧
+    (runFile true name (FileOracle.ofBytes (Gz.fileStored (m :: ms)))).lines = C04.splitLines (Gz.fileData (m :: ms)) ∧
+    (runFile true name (FileOracle.ofBytes (Gz.fileStored (m :: ms)))).errs = 0 := by
+  have hg : Gz.gunzip (Gz.fileStored (m :: ms)) = some (Gz.fileData (m :: ms), false) := by
+    have := Gz.gunzip_fileStored m ms hms [] (fun r h => by cases h)
+    simpa using this
+  have hh : (FileOracle.ofBytes (Gz.fileStored (m :: ms))).gzHeaderOk = true := by
+    have := ofBytes_headerOk m.1 (hms m (by simp)).1 (Gz.deflateStored m.2 ++ Gz.trailer m.2.flatten ++ Gz.fileStored ms)
+    simpa [Gz.fileStored, Gz.memberStored] using this
+  obtain ⟨h1, h2⟩ := gunzip_decodes name (FileOracle.ofBytes (Gz.fileStored (m :: ms))) rfl hh
+  refine ⟨hg, ?_, ?_⟩
+  · rw [h1]; simp [FileOracle.ofBytes, gzAnswers, hg]
+  · rw [h2]; simp [FileOracle.ofBytes, gzAnswers, hg]
+
+/-- **A truncated gzip file is a read error, at every cut point** after the header: the lines of the data that was
+    decoded before the cut are handed on (a prefix of the content), the input is counted once as a read error – never
+    silently taken for a complete file.  (`compress/flate` reports `io.ErrUnexpectedEOF`, inside a block as well as
+    between the last block and the trailer, and inside the trailer.) -/
+theorem gzip_truncated_counted (name : Path) (h : Gz.Hdr) (hw : h.WF) (cs : List Bytes) (hok : Gz.ChunksOk cs) (k : Nat)
+    (hk1 : h.encode.length ≤ k) (hk2 : k < (Gz.memberStored h cs).length) :
+    ∃ d : Bytes, d <+: cs.flatten ∧
+      (runFile true name (FileOracle.ofBytes ((Gz.memberStored h cs).take k))).lines = C04.splitLines d ∧
+      (runFile true name (FileOracle.ofBytes ((Gz.memberStored h cs).take k))).errs = 1 := by
+  obtain ⟨d, hg, hp⟩ := Gz.gunzip_cut h hw cs hok k hk1 hk2
+  have hh : (FileOracle.ofBytes ((Gz.memberStored h cs).take k)).gzHeaderOk = true := by
+    have e : (Gz.memberStored h cs).take k = h.encode ++ (Gz.deflateStored cs ++ Gz.trailer cs.flatten).take (k - h.encode.length) := by
+      unfold Gz.memberStored
+      rw [List.append_assoc, List.take_append, List.take_of_length_le hk1]
+    rw [e]
+    exact ofBytes_headerOk h hw _
+  obtain ⟨h1, h2⟩ := gunzip_decodes name (FileOracle.ofBytes ((Gz.memberStored h cs).take k)) rfl hh
+  refine ⟨d, hp, ?_, ?_⟩
+  · rw [h1]; simp [FileOracle.ofBytes, gzAnswers, hg]
+  · rw [h2]; simp [FileOracle.ofBytes, gzAnswers, hg]
+
+/-- **Bytes after the last member that are not a gzip header are a read error** (after all the data has been handed
+    on): `gzip.Reader` looks for another member after every trailer. -/
+theorem gzip_trailing_garbage_counted (name : Path) (m : Gz.Hdr × List Bytes) (ms : List (Gz.Hdr × List Bytes))
+    (hms : Gz.MembersOk (m :: ms)) (tail : Bytes) (hne : tail ≠ []) (ht : Gz.NoHeader tail) :
+    (runFile true name (FileOracle.ofBytes (Gz.fileStored (m :: ms) ++ tail))).lines = C04.splitLines (Gz.fileData (m :: ms)) ∧
+    (runFile true name (FileOracle.ofBytes (Gz.fileStored (m :: ms) ++ tail))).errs = 1 := by
+  have hg := Gz.gunzip_fileStored m ms hms tail ht
+  simp only [hne, ne_eq, not_false_eq_true, decide_true] at hg
+  have hh : (FileOracle.ofBytes (Gz.fileStored (m :: ms) ++ tail)).gzHeaderOk = true := by
+    have := ofBytes_headerOk m.1 (hms m (by simp)).1 (Gz.deflateStored m.2 ++ Gz.trailer m.2.flatten ++ Gz.fileStored ms ++ tail)
+    simpa [Gz.fileStored, Gz.memberStored] using this
+  obtain ⟨h1, h2⟩ := gunzip_decodes name (FileOracle.ofBytes (Gz.fileStored (m :: ms) ++ tail)) rfl hh
+  refine ⟨?_, ?_⟩
+  · rw [h1]; simp [FileOracle.ofBytes, gzAnswers, hg]
+  · rw [h2]; simp [FileOracle.ofBytes, gzAnswers, hg]
+
+/-- the hypotheses of the three theorems above are satisfiable: two members (one with a name and a header CRC, in two
+    blocks, one of them empty), a cut inside the second block's data, a trailing newline as garbage -/
+example : Gz.MembersOk [(⟨0x0a, [0, 0, 0, 0, 0, 3], [], [97], []⟩, [[104, 105, 10], [], [120, 10]]), (⟨0, [0, 0, 0, 0, 0, 3], [], [], []⟩, [[]])] ∧
+    Gz.NoHeader [10] ∧
+    Gz.gunzip ((Gz.memberStored ⟨0, [0, 0, 0, 0, 0, 3], [], [], []⟩ [[104, 105, 10, 120, 10]]).take 19) = some ([104, 105, 10, 120], true) := by
+  refine ⟨?_, ?_, by decide +kernel⟩
+  · intro m hm
+    simp only [List.mem_cons, List.not_mem_nil, or_false] at hm
+    rcases hm with rfl | rfl
+    · exact ⟨⟨rfl, by decide, ⟨by decide, by decide⟩, ⟨by decide, by decide⟩⟩, by decide, by decide⟩
+    · exact ⟨⟨rfl, by decide, ⟨by decide, by decide⟩, ⟨by decide, by decide⟩⟩, by decide, by decide⟩
+  · intro r h
+    simp [Gz.readHeaderRest, Gz.readFull] at h
+
+/-- Huffman blocks, checked by the kernel on two real files (`gzip -9`): a fixed-Huffman block with a match, and a
+    dynamic-Huffman block (code length code, repeat codes, two code tables) of 150 bytes of text -/
+example : Gz.gunzip [31, 139, 8, 0, 0, 0, 0, 0, 2, 3, 115, 119, 13, 81, 208, 79, 228, 114, 135, 80, 0, 160, 157, 184, 148, 14, 0, 0, 0] = some ([71, 69, 84, 32, 47, 97, 10, 71, 69, 84, 32, 47, 97, 10], false) := by decide +kernel
+
+set_option maxRecDepth 100000 in
+example : Gz.gunzip [31, 139, 8, 0, 0, 0, 0, 0, 2, 3, 53, 141, 193, 17, 0, 49, 8, 2, 255, 118, 9, 216, 127, 13, 183, 36, 57, 71, 29, 68, 80, 201, 35, 141, 169, 137, 164, 150, 12, 153, 100, 1, 240, 114, 28, 178, 116, 25, 31, 49, 8, 45, 139, 154, 74, 85, 251, 67, 26, 118, 28, 205, 51, 93, 245, 130, 167, 15, 138, 122, 141, 200, 125, 248, 238, 89, 75, 255, 0, 23, 188, 104, 123, 150, 0, 0, 0] = some ([97, 97, 98, 10, 97, 97, 10, 98, 97, 97, 10, 10, 99, 97, 97, 97, 99, 97, 97, 97, 97, 98, 97, 98, 10, 99, 99, 99, 100, 97, 98, 97, 97, 97, 10, 97, 98, 99, 98, 99, 99, 98, 99, 97, 98, 97, 98, 97, 98, 97, 97, 98, 98, 97, 97, 10, 10, 97, 98, 97, 99, 97, 97, 98, 99, 99, 97, 97, 97, 99, 98, 98, 97, 97, 98, 97, 97, 97, 97, 97, 99, 98, 98, 97, 97, 98, 98, 98, 97, 99, 99, 100, 99, 97, 98, 99, 97, 98, 99, 98, 98, 98, 97, 99, 98, 97, 99, 97, 97, 98, 100, 98, 98, 98, 10, 97, 97, 97, 98, 98, 100, 98, 98, 97, 98, 97, 98, 98, 98, 98, 99, 97, 97, 97, 98, 97, 98, 97, 98, 97, 99, 97, 97, 98, 98, 97, 100, 97, 97, 98], false) := by
+  decide +kernel
+
+/-- The boundary of `gzip_truncated_counted`: a gzip file cut INSIDE its header (here after 9 of 10 bytes) is not a gzip
+    file for `gzip.NewReader` – `rare -z` reads the nine bytes as plain text and counts no error. -/
+theorem gzip_cut_in_header_is_plain :
+    Gz.gunzip [0x1f, 0x8b, 8, 0, 0, 0, 0, 0, 0] = none ∧
+    (runFile true [97] (FileOracle.ofBytes [0x1f, 0x8b, 8, 0, 0, 0, 0, 0, 0])).errs = 0 ∧
+    (runFile true [97] (FileOracle.ofBytes [0x1f, 0x8b, 8, 0, 0, 0, 0, 0, 0])).lines = [[0x1f, 0x8b, 8, 0, 0, 0, 0, 0, 0]] := by
+  decide +kernel
+
+/-! # Flag plumbing: which reader, with which options -/
+
+/-- **The hand model of `BuildBatcherFromArguments` is the function regenerated from its body**, for all flag
+    values and argument lists: same usage error (same message, in the same precedence), same constructor, same evaluated
+    arguments (`--readers`, `--batch`, `--batch-buffer`, `-z`, `-R`, `-F`, `--poll`, `-t` reach the parameter they are
+    meant for), same warnings. -/
+theorem dispatch_matches_source (f : Flags) (args : List Path) :
+    Gen.C06.buildBatcherFn f.B f.I args.length (args.head? == some dash) = (dispatch f args).toDecision := by
+  have hB : f.B "follow" = f.follow ∧ f.B "reopen" = f.reopen ∧ f.B "tail" = f.tail ∧ f.B "poll" = f.poll ∧
+      f.B "gunzip" = f.gunzip ∧ f.B "recursive" = f.recursive := by
+    refine ⟨?_, ?_, ?_, ?_, ?_, ?_⟩ <;> simp [Flags.B]
+  have hI : f.I "readers" = f.readers ∧ f.I "batch" = f.batch ∧ f.I "batch-buffer" = f.batchBuffer := by
+    refine ⟨?_, ?_, ?_⟩ <;> simp [Flags.I]
+  obtain ⟨h1, h2, h3, h4, h5, h6⟩ := hB
+  obtain ⟨i1, i2, i3⟩ := hI
+  have hs : (decide (args.length = 0) || (args.head? == some dash)) = usesStdin args := by
+    unfold usesStdin
+    cases args <;> simp
+  unfold Gen.C06.buildBatcherFn dispatch
+  simp only [h1, h2, h3, h4, h5, h6, i1, i2, i3, hs]
+  by_cases c1 : f.batch < 1
+  · simp [c1, Input.toDecision, Usage.msg]
+  by_cases c2 : f.batchBuffer < 0
+  · simp [c1, c2, Input.toDecision, Usage.msg]
+  by_cases c3 : f.readers < 1
+  · simp [c1, c2, c3, Input.toDecision, Usage.msg]
+  simp only [c1, c2, c3, decide_false, Bool.false_eq_true, ↓reduceIte]
+  cases f.follow <;> cases f.reopen <;> cases f.tail <;> cases f.poll <;> cases f.gunzip <;>
+    cases usesStdin args <;> simp [Input.toDecision, Usage.msg]
+
+/-- the flag combinations `BuildBatcherFromArguments` refuses -/
+def Flags.Refused (f : Flags) (args : List Path) : Prop :=
+  f.batch < 1 ∨ f.batchBuffer < 0 ∨ f.readers < 1 ∨ (f.poll = true ∧ (f.follow || f.reopen) = false) ∨
+  (f.tail = true ∧ (f.follow || f.reopen) = false) ∨ (usesStdin args = true ∧ f.gunzip = true)
+
+/-- **Exactly the refused combinations end in a usage error (exit status 2, nothing opened)**: `--batch` < 1,
+    `--batch-buffer` < 0, `--readers` < 1, `--poll` or `--tail` without `-f`/`-F`, `-z` with standard input. -/
+theorem dispatch_usage_iff (f : Flags) (args : List Path) :
+    (∃ u, dispatch f args = .usage u) ↔ f.Refused args := by
+  unfold dispatch Flags.Refused
+  by_cases c1 : f.batch < 1
+  · simp [c1]
+  by_cases c2 : f.batchBuffer < 0
+  · simp [c1, c2]
+  by_cases c3 : f.readers < 1
+  · simp [c1, c2, c3]
+  simp only [c1, c2, c3, ↓reduceIte, false_or]
+  cases f.follow <;> cases f.reopen <;> cases f.tail <;> cases f.poll <;> cases f.gunzip <;>
+    cases usesStdin args <;> simp
+
+/-- **Every other combination selects its reader like this**: `-` first or no argument ⇒ standard input (named
+    `<stdin>`, `-f` only warned about); else `-f`/`-F` ⇒ the tailing reader over the expanded arguments – all files at once
+    whatever `--readers` says, and WITHOUT decompression whatever `-z` says (a warning is all that is left of `-z`);
+    else the file reader with `-z`, `-R`, `--readers` as given. -/
+theorem dispatch_reader (f : Flags) (args : List Path) (h : ¬ f.Refused args) :
+    dispatch f args =
+      if usesStdin args then .stdin f.batch f.batchBuffer (f.follow || f.reopen)
+      else if f.follow || f.reopen then .tail f.recursive f.batch f.batchBuffer f.reopen f.poll f.tail f.gunzip
+      else .files f.recursive f.gunzip f.readers f.batch f.batchBuffer := by
+  unfold Flags.Refused at h
+  unfold dispatch
+  by_cases c1 : f.batch < 1
+  · exact absurd (Or.inl c1) h
+  by_cases c2 : f.batchBuffer < 0
+  · exact absurd (Or.inr (Or.inl c2)) h
+  by_cases c3 : f.readers < 1
+  · exact absurd (Or.inr (Or.inr (Or.inl c3))) h
+  simp only [c1, c2, c3, false_or] at h
+  simp only [c1, c2, c3, ↓reduceIte]
+  revert h
+  cases f.follow <;> cases f.reopen <;> cases f.tail <;> cases f.poll <;> cases f.gunzip <;>
+    cases usesStdin args <;> simp
+
+/-- Without the follow flags (the runs the rest of this file is about) the decision is the one `run` uses: the usage
+    checks of `usageCheck`, then `plan`'s choice between standard input and the expanded files. -/
+theorem dispatch_plain (f : Flags) (args : List Path) (hf : f.follow = false) (hr : f.reopen = false)
+    (ht : f.tail = false) (hp : f.poll = false) (hb : 0 ≤ f.batchBuffer) :
+    ((usageCheck f.batch f.readers f.gunzip args).isSome ↔ ∃ u, dispatch f args = .usage u) ∧
+    (usageCheck f.batch f.readers f.gunzip args = none →
+      dispatch f args = if usesStdin args then .stdin f.batch f.batchBuffer false
+                        else .files f.recursive f.gunzip f.readers f.batch f.batchBuffer) := by
+  have hb' : ¬ f.batchBuffer < 0 := by omega
+  unfold usageCheck dispatch
+  simp only [hf, hr, ht, hp, hb', Bool.or_self, Bool.false_and, Bool.false_eq_true, ↓reduceIte]
+  by_cases c1 : f.batch < 1
+  · simp [c1]
+  by_cases c3 : f.readers < 1
+  · simp [c1, c3]
+  simp only [c1, c3, ↓reduceIte]
+  cases f.gunzip <;> cases usesStdin args <;> simp
+
+/-- the three readers and two of the refusals on concrete command lines: `rare filter -F -t -z a.log` tails (no
+    decompression, warning), `rare filter -z --readers 1 a.log` reads files, `rare filter -f -` reads standard input with a
+    warning, `rare filter --tail a.log` and `rare filter -z` are refused -/
+example :
+    dispatch ⟨false, true, true, false, true, false, 3, 1000, 4⟩ [[97]] = .tail false 1000 4 true false true true ∧
+    dispatch ⟨false, false, false, false, true, false, 1, 1000, 4⟩ [[97]] = .files false true 1 1000 4 ∧
+    dispatch ⟨true, false, false, false, false, false, 3, 1000, 4⟩ [dash] = .stdin 1000 4 true ∧
+    dispatch ⟨false, false, true, false, false, false, 3, 1000, 4⟩ [[97]] = .usage .tailNeedsFollow ∧
+    dispatch ⟨false, false, false, false, true, false, 3, 1000, 4⟩ [] = .usage .gunzipStdin := by
+  decide
 
 end Rare.C06
